@@ -40,6 +40,12 @@ type c07Event struct {
 }
 
 func c07Case(t *testing.T, id int, seed uint64, out *Out) {
+	b, qs := c07Build(t, seed)
+	emitWitness(t, out, "C07", id, b, qs, fmt.Sprintf("seed=%d", seed))
+}
+
+// c07Build builds one recovery-pattern history and the queries to run on it.
+func c07Build(t *testing.T, seed uint64) (*WorldBuilder, []VQuery) {
 	r := NewRng(seed)
 	b := NewWorldBuilder(t)
 	main, other := "refs/heads/main", "refs/heads/feature"
@@ -53,11 +59,13 @@ func c07Case(t *testing.T, id int, seed uint64, out *Out) {
 		ref   string
 		valid bool
 		same  int
+		stale bool // signed by the key the previous policy state authorized (de-authorized since)
 	}
 	plans := []pushPlan{}
 	perRef := map[string]int{}
 	annAt := map[int][]int{} // insertion point (after push index) -> pushes covered
 	lastValid := map[string]int{}
+	policyAfter := map[int]bool{}
 	addPush := func(pp pushPlan) int {
 		perRef[pp.ref]++
 		plans = append(plans, pp)
@@ -70,7 +78,7 @@ func c07Case(t *testing.T, id int, seed uint64, out *Out) {
 		// an early entry of the other reference (annotations may also name it)
 		addPush(pushPlan{ref: other, valid: r.Chance(85), same: -1})
 	}
-	if r.Chance(55) {
+	if r.Chance(70) {
 		// structured episodes: good, bad+, revoke (maybe incomplete), fix (maybe wrong tree / skipped / unauthorized)
 		for len(plans) < k {
 			ref := main
@@ -95,6 +103,9 @@ func c07Case(t *testing.T, id int, seed uint64, out *Out) {
 					covered = append(covered, bi)
 				}
 			}
+			if r.Chance(60) {
+				policyAfter[bad[len(bad)-1]] = true // a policy update INSIDE the recovery window
+			}
 			fix := pushPlan{ref: ref, valid: r.Chance(75), same: -1}
 			if lv, ok := lastValid[ref]; ok && r.Chance(85) {
 				fix.same = lv
@@ -110,6 +121,11 @@ func c07Case(t *testing.T, id int, seed uint64, out *Out) {
 			if r.Chance(10) {
 				annAt[fi] = append(annAt[fi], fi) // the fix itself is revoked
 			}
+			if r.Chance(80) {
+				// relies on the state in force after the fix: signed by whoever it names, or (25%) by
+				// the key that the state recorded inside the window has just de-authorized
+				addPush(pushPlan{ref: ref, valid: r.Chance(85), same: -1, stale: r.Chance(25)})
+			}
 		}
 		k = len(plans)
 	} else {
@@ -124,6 +140,7 @@ func c07Case(t *testing.T, id int, seed uint64, out *Out) {
 			}
 			addPush(pp)
 		}
+		k = len(plans)
 		// annotations: for each push decide whether/where it is skipped
 		for i := range plans {
 			skipP := 35
@@ -157,6 +174,9 @@ func c07Case(t *testing.T, id int, seed uint64, out *Out) {
 			} else {
 				signer = 3
 			}
+		}
+		if pp.stale && pp.ref == main {
+			signer = 5 - mainKey // the other one of keys 2 / 3
 		}
 		c := b.AddCommit(tip[pp.ref], tree, ip(signer))
 		tip[pp.ref] = ip(c)
@@ -204,7 +224,7 @@ func c07Case(t *testing.T, id int, seed uint64, out *Out) {
 				}
 			}
 		}
-		if r.Chance(18) {
+		if r.Chance(12) || policyAfter[i] {
 			// a policy update that swaps who may push to main (2 <-> 3): later "valid" pushes are
 			// signed by whoever the state in force names, so a dropped or misplaced policy entry shows
 			np := clonePolicy(p)
@@ -246,5 +266,5 @@ func c07Case(t *testing.T, id int, seed uint64, out *Out) {
 			qs = append(qs, VQuery{Mode: "latest", Ref: ref})
 		}
 	}
-	emitWitness(t, out, "C07", id, b, qs, fmt.Sprintf("seed=%d", seed))
+	return b, qs
 }
